@@ -125,6 +125,7 @@ type FnCtx struct {
 	usedContracts map[string]bool
 	anchors map[*ssa.CallCommon]string
 	atSorts map[string]string
+	usedLemmas map[string]bool
 	loopDecs map[*loopInfo]string
 }
 
@@ -224,6 +225,7 @@ func (fc *FnCtx) ghostSort(s string) string {
 			fc.errorf("ghost sort: unknown type %s.%s", sm[1], sm[2])
 			return "Int"
 		}
+		fc.eng.lemmaTypes[sm[1]+"."+sm[2]] = t
 		return fc.sorts.SortOf(t)
 	})
 }
